@@ -129,11 +129,16 @@ ORDINARY = ('password1', 'monkey12', 'iloveyou', 'love2019!')
 
 def must_complete(entries, alphabet_size=100, encoding='utf-8'):
     """True when training may not be skipped as 'did not complete': the list holds ordinary material (the four passwords above, which
-    give the OMEN part n-grams at every n-gram size used) and the alphabet is not tiny. Measured on the unchanged tree over 900
-    generated lists: every non-completion had an alphabet of 5 (or 10 with 5-grams) or lacked that material. Without this guard a
-    change that makes the trainer abort more often would only raise a skip counter."""
-    have = {e[0] for e in entries}
-    return alphabet_size >= 30 and all(w in have for w in ORDINARY)
+    give the OMEN part n-grams at every n-gram size used) and the OMEN alphabet (the `alphabet_size` most frequent characters of the
+    list) is certain to hold every character of the list. Measured on the unchanged tree over 900 generated lists: every
+    non-completion had an alphabet of 5 (or 10 with 5-grams) or lacked that material; a thorough run then met a list whose 30
+    most frequent characters came from one long password repeated eight times, so that no ordinary password started inside the
+    alphabet (ZeroDivisionError in the OMEN smoothing, the same legitimate give-up) - hence the condition on the number of distinct
+    characters rather than on the alphabet size alone. Without this guard a change that makes the trainer abort more often would
+    only raise a skip counter."""
+    have = {e[0].lower() for e in entries}          # the lists spell some of them with a capital (Monkey12)
+    distinct = {ch for e in entries for ch in e[0]}
+    return alphabet_size >= 30 and len(distinct) <= alphabet_size and all(w in have for w in ORDINARY)
 
 
 def skip_or_alarm(rec, r, case, entries, alphabet_size=100):
